@@ -118,6 +118,12 @@ Proof.
 Qed.
 Print Assumptions C20_owning_adaptor_is_a_value.
 
+(* manual iteration with it++ (using the old value it returns) is the same loop as with ++it / range-for *)
+Theorem C20_post_increment_same_loop : forall (A : Type) (fuel : nat) (f : nat -> A -> A) (c : list A) (b e : eiter) visits,
+  e_loop_post A fuel f c b e visits = e_loop A fuel f c b e visits.
+Proof. exact e_loop_post_same. Qed.
+Print Assumptions C20_post_increment_same_loop.
+
 (* non-vacuity *)
 Module Examples.
 Example C20_ex_enumerate : enumerate_for nat (fun i v => 3 * v + i + 1) [5; 6; 7] = Done ([(0, 5); (1, 6); (2, 7)], [16; 20; 24]).
